@@ -4,8 +4,9 @@ import os
 
 import vlib
 
-INVS = "TypeOK GetBlockSound GetBlockExact RangeOrder RangeReturn BusyLock".split()
-PROPS = "Termination RangeCompletes".split()
+INVS = ("TypeOK GetBlockSound GetBlockExact RangeOrder RangeReturn BusyLock "
+        "BatchDoneFuncIffConfigured ReleasedAtBatchDone BlockCallbackPresent").split()
+PROPS = "Termination RangeCompletes EveryRequestSent".split()
 
 
 def _merge(r):
@@ -73,19 +74,31 @@ def run(chk, replay=None):
                 "(rendezvous on the result channels), the busy lock with its tokens and watcher, and shutdown (DoneChan "
                 "closes only after recvLoop left its loop) against a scripted server: NoBlocks or StartBatch.Block*.BatchDone "
                 "for every batch over the block identities, optionally followed by a close, optionally followed by a "
-                "well-served follow-up request for the other point. TLC checks in every state that GetBlock returns a block "
+                "well-served follow-up request for the other point, on a client in every callback configuration (which of "
+                "BlockFunc / BlockRawFunc / BatchDoneFunc are set; quick: three configurations in which each callback is once "
+                "set and once unset, thorough: all eight; a range batch carrying blocks needs a block callback). The callbacks "
+                "only receive: comp[k] counts the BatchDone messages handled for call k whatever is configured, BatchDoneFunc is "
+                "invoked iff configured, the busy lock is free once comp[k] = 1, and every request of a history without close is "
+                "eventually sent. TLC checks in every state that GetBlock returns a block "
                 "only if exactly that block was served (and, without a close, exactly then), that BlockFunc sees a prefix of "
                 "the served blocks in order and BatchDoneFunc at most once and only after all of them, lock ownership, and as "
                 "liveness that every call returns and every started range completes. It emits every case and every terminal "
                 "outcome; the driver plays each case with real mainnet blocks from a raw segment-level peer against the real "
                 "blockfetch.Client in a real engine over two muxers and requires the observed outcome (per call ok<id>/err/nil, "
-                "delivered ids, BatchDone count) to be one of the case's terminal outcomes. A call still parked inside the "
+                "delivered ids, BatchDone count) to be one of the case's terminal outcomes; callbacks are attributed to the "
+                "request the peer received last, and the follow-up of a range request is issued either at once (it waits for "
+                "the lock inside the library) or after the batch was seen completing. A call still parked inside the "
                 "library 10 s after the request, with the whole script written, is a hang. A case is (call, point, shape, "
-                "close, follow-up); all are non-trivial")
+                "close, follow-up, callback configuration); all are non-trivial")
     chk.assumptions = [
         "state timeouts (C14) are configured out of the way (10 min) and not part of this property",
         "block identities 1..3 are mapped onto distinct mainnet fixture blocks (seeded permutation of the seven eras)",
         "after a close the engine may drop any suffix of the script (the model lets recvLoop exit between any two messages)",
+        "with BlockFunc and BlockRawFunc both set the property does not say which one receives the blocks: either is accepted; "
+        "a client without any block callback is only given range batches without blocks (the property is silent otherwise)",
+        "a script the raw peer cannot finish because the connection went down under it (it closes only after its last "
+        "script itself) is the client's doing and judged by the observed outcome; only a muxer that does not take a segment "
+        "within 60 s is a machinery failure",
         "a hang verdict needs: every model outcome returns, the peer wrote its whole script, and two goroutine dumps 1.5 s "
         "apart show the calling goroutine parked inside the blockfetch client method",
     ]
@@ -100,7 +113,7 @@ def run(chk, replay=None):
         vlib.run_driver(chk, drv, [path], timeout=300, env=env)
         return
     cfg = "BlockFetchClient.cfg" if chk.tier == "quick" else "BlockFetchClientThorough.cfg"
-    r = vlib.run_tlc("net/BlockFetchClient", cfg=cfg, timeout=400, workers=1, deadlock=False,
+    r = vlib.run_tlc("net/BlockFetchClient", cfg=cfg, timeout=400 if chk.tier == "quick" else 900, workers=1, deadlock=False,
                      coverage=(chk.tier != "quick"))
     vlib.tlc_must_pass(r, cfg)
     chk.add_tlc(cfg, r)
@@ -111,7 +124,7 @@ def run(chk, replay=None):
     vlib.write_ndjson(path, rows)
     chk.extra["cases"] = len(rows)
     chk.extra["cases_with_several_allowed_outcomes"] = sum(1 for x in rows if len(x["allowed"]) > 1)
-    vlib.run_driver(chk, drv, [path], timeout=500)
+    vlib.run_driver(chk, drv, [path], timeout=500 if chk.tier == "quick" else 1200)
     if chk.tier != "quick":
         _expect_violation(chk, "BlockFetchClientAsCodeHash.cfg", "Invariant GetBlockSound is violated",
                           "HashCheck=FALSE: GetBlockSound violated (F-C23a)")
